@@ -1,3 +1,5 @@
 CONSTANTS
   NE = 3
+  CfgIds = {2, 3}
+  Buggy = FALSE
 INVARIANTS TypeOK
